@@ -102,6 +102,11 @@ pub proof fn use_id_order<C: Ciphersuite>()
 pub uninterp spec fn spec_id_cmp<C: Ciphersuite>(a: Identifier<C>, b: Identifier<C>) -> core::cmp::Ordering;
 pub axiom fn ax_identifier_ord<C: Ciphersuite>()
     ensures vstd::laws_cmp::obeys_cmp::<Identifier<C>>(), lt_laws::<Identifier<C>>();
+// T3 addendum (assumed; true for the six suites, whose group orders exceed 2^250): the field characteristic exceeds 2^16,
+// so the default identifiers 1..=65535 are non-zero (otherwise `default_identifiers` would panic) and pairwise distinct
+pub axiom fn ax_char_large<C: Ciphersuite>(n: nat)
+    requires 0 < n <= 65535
+    ensures nat_scalar::<C>(n) != s0::<C>();
 pub axiom fn ax_identifier_total<C: Ciphersuite>(a: Identifier<C>, b: Identifier<C>)
     ensures a == b || lt(a, b) || lt(b, a);
 
